@@ -41,6 +41,8 @@ type SchedOpts struct {
 	Horizon    int
 	Fallback   []int // preemption bounds tried if DPOR does not finish
 	ForcePB    int   // >=0: skip DPOR and use this preemption bound (-1: DPOR)
+	SkipDPOR   bool  // go straight to the preemption bounds in Fallback
+	Wide       bool  // preemption-bounded search of this scenario is sliced over all worker processes
 	Deviations int   // bound for cost-bearing data choices (-1 unbounded)
 	MaxExec    int64
 }
@@ -155,10 +157,14 @@ func RunScenario(ctx *Ctx, rep *Report, sc *Scenario, o SchedOpts) {
 
 	outcomes := map[string]bool{}
 	run := func(mode vsched.Mode, pb int, deadline time.Time) *vsched.Stats {
-		ex := vsched.NewExplorer(vsched.Options{Mode: mode, PreemptionBound: pb, DeviationBound: o.Deviations, Horizon: o.Horizon, Deadline: deadline, MaxExecutions: o.MaxExec})
+		vo := vsched.Options{Mode: mode, PreemptionBound: pb, DeviationBound: o.Deviations, Horizon: o.Horizon, Deadline: deadline, MaxExecutions: o.MaxExec}
+		if o.Wide && mode == vsched.ModePB && ctx.NShards > 1 {
+			vo.SliceDepth, vo.SliceIndex, vo.SliceCount = 40, ctx.Shard, ctx.NShards
+		}
+		ex := vsched.NewExplorer(vo)
 		first := true
 		st := ex.Explore(func() { body = mkBody(); body() }, func(e *vsched.Execution) bool {
-			if e.End == vsched.EndSleepBlocked {
+			if e.End == vsched.EndSleepBlocked || e.End == vsched.EndPruned {
 				return true
 			}
 			issues := builtinIssues(sc, e)
@@ -251,7 +257,7 @@ func RunScenario(ctx *Ctx, rep *Report, sc *Scenario, o SchedOpts) {
 		deadline = ctx.Deadline
 	}
 	rep.Count("scenarios", 1)
-	if o.ForcePB < 0 {
+	if o.ForcePB < 0 && !o.SkipDPOR {
 		st := run(vsched.ModeDPOR, 0, deadline)
 		if st.Exhaustive {
 			rep.mu.Lock()
@@ -282,9 +288,12 @@ func RunScenario(ctx *Ctx, rep *Report, sc *Scenario, o SchedOpts) {
 	rep.mu.Lock()
 	rep.States += int64(len(outcomes))
 	rep.mu.Unlock()
-	if completed >= 0 {
+	if completed >= 0 && o.SkipDPOR && completed == bounds[len(bounds)-1] {
+		// The stated bound was the goal and it was completed.
 		rep.Count(fmt.Sprintf("scenarios_pb%d_complete", completed), 1)
-		rep.NotExhaustive(fmt.Sprintf("%s: DPOR not finished in budget; preemption bound %d completed", sc.Name, completed))
+	} else if completed >= 0 {
+		rep.Count(fmt.Sprintf("scenarios_pb%d_complete", completed), 1)
+		rep.NotExhaustive(fmt.Sprintf("%s: unbounded exploration not completed; preemption bound %d completed", sc.Name, completed))
 	} else {
 		rep.NotExhaustive(fmt.Sprintf("%s: no exploration mode completed in budget", sc.Name))
 	}
